@@ -290,7 +290,7 @@ namespace
                 }
                 if (got[i] != 0)
                     nonzero = true;
-                if (std::fabs(static_cast<LD>(got[i]) - want[i]) > tol)
+                if (!(std::fabs(static_cast<LD>(got[i]) - want[i]) <= tol))
                 {
                     V("differs-from-direct-solve/" + kcls, "node " + std::to_string(i) + " erosion " + hexd(got[i])
                                                                + " direct solve " + hexd(static_cast<double>(want[i])));
@@ -329,12 +329,12 @@ namespace
         LD tol = 1e-9L * (1 + mag) * 4;
         for (std::size_t i = 0; i < a.size(); ++i)
         {
-            if (std::fabs(static_cast<LD>(es[i]) - (static_cast<LD>(ea[i]) + eb[i])) > tol)
+            if (!(std::fabs(static_cast<LD>(es[i]) - (static_cast<LD>(ea[i]) + eb[i])) <= tol))
             {
                 V("not-additive", cs, "node " + std::to_string(i));
                 break;
             }
-            if (std::fabs(static_cast<LD>(eh[i]) - (-2.5L * ea[i])) > tol)
+            if (!(std::fabs(static_cast<LD>(eh[i]) - (-2.5L * ea[i])) <= tol))
             {
                 V("not-homogeneous", ch, "node " + std::to_string(i));
                 break;
@@ -347,7 +347,7 @@ namespace
             auto eu = run_lib(cu);
             ++ctx.rep.ops;
             for (std::size_t i = 0; i < a.size(); ++i)
-                if (std::fabs(static_cast<LD>(eu[i]) - ea[i]) > 1e-12L * (1 + mag))
+                if (!(std::fabs(static_cast<LD>(eu[i]) - ea[i]) <= 1e-12L * (1 + mag)))
                 {
                     V("scalar-and-uniform-array-disagree", cu, "node " + std::to_string(i) + " " + hexd(eu[i]) + " vs " + hexd(ea[i]));
                     break;
